@@ -15,7 +15,8 @@
 //	                statement", each System call with "is its error
 //	                returned", and the source-order re-dispatch effects
 //	                (m["k"] = literal, recursive s.ProcessRequest calls
-//	                and whether their result is used).
+//	                and whether their result is used / their error
+//	                returned).
 //	LockTable.v     for every method of IndexedState / LinearState: the
 //	                source-order sequence of lock, unlock, cache, map/index
 //	                and Store events.
@@ -339,6 +340,9 @@ func refineCase(body []ast.Stmt) (gs []getterFact, calls []string, effects []str
 					}
 				}
 			}
+			if checked {
+				used = "checked" // the error of the inner request is returned
+			}
 			out := "out"
 			if len(c.Args) >= 3 && exprString(c.Args[2]) != "out" {
 				out = "discard"
@@ -544,8 +548,8 @@ func genDispatchTable(repo, out string) {
 	}
 	b.WriteString("].\n\n")
 	b.WriteString("(** uri -> re-dispatch effects in source order: \"set:key=literal\" for m[\"key\"] = literal,\n")
-	b.WriteString("    \"redispatch:used|ignored:out|discard\" for a recursive s.ProcessRequest(ctx, m, out|ioutil.Discard)\n")
-	b.WriteString("    whose results are used / thrown away *)\n")
+	b.WriteString("    \"redispatch:checked|used|ignored:out|discard\" for a recursive s.ProcessRequest(ctx, m, out|ioutil.Discard)\n")
+	b.WriteString("    whose error is returned / whose results are used / thrown away *)\n")
 	b.WriteString("Definition dispatch_effects : list (string * list string) := [\n")
 	for i, e := range entries {
 		sep := ";"
